@@ -33,7 +33,7 @@ LEVEL_TEXT = ("Tens of thousands (thorough: millions incl. the fuzzer) of texts 
               "DoctestParser.parse and parse_docstr_examples in all three styles; a sample is embedded in a module among "
               "valid docstrings whose doctests must still be collected and run to their by-construction verdicts. "
               "Robustness fuzzing: absence of crashes is only established for what was generated.")
-LEVEL_ADDED = ("Docstrings that are broken by construction (one of 20 statements that are not Python for a grammar-level reason, in the layouts '>>> + ...', '>>> on every line' and single line, between sound examples) must raise the parse error; two fifths of the embedded cases drive collection with the imported module object instead of its path.")
+LEVEL_ADDED = ("Docstrings that are broken by construction (one of 20 statements that are not Python for a grammar-level reason, in the layouts '>>> + ...', '>>> on every line' and single line, between sound examples) must raise the parse error; two fifths of the embedded cases drive collection with the imported module object instead of its path. A third of the broken-by-construction docstrings carry a flat tag line (body not indented under it): style auto is then held to the freeform rule (warning, no example).")
 LEVEL_NOTE = ("Trusted: the allowed-exception rule (only DoctestParseError may leave parse; nothing may leave "
               "parse_docstr_examples). A case is called a hang only if it exceeds 20 s twice, the second time in a fresh "
               "process with a 120 s limit; otherwise 'slow, inconclusive'. Inputs are bounded at 40 lines x 200 columns.")
